@@ -19,6 +19,8 @@ import (
 	"os/exec"
 	"path/filepath"
 	"strings"
+	"sync"
+	"sync/atomic"
 	"testing"
 	"time"
 
@@ -311,6 +313,7 @@ func TestVerifC07(t *testing.T) {
 		run.Inconclusive("reference HMAC self-test failed: " + msg)
 		return
 	}
+	c07Concurrent(run)
 	py := c07StartPy()
 	defer py.Close()
 	pyFailed := func(err error) {
@@ -573,3 +576,67 @@ func c07Bucket(n int) int {
 	return 99
 }
 
+// c07Concurrent: signing and verifying from several goroutines at once (as
+// concurrent keepstore handlers do) must give exactly the same results as
+// one call at a time: whatever state the implementation shares between calls
+// (compiled regexps, keyed hashes, caches), a signature is the reference HMAC
+// of ITS OWN hash/token/expiry/ttl/key, a correct locator verifies, and a
+// locator verified with another key or token does not.
+func c07Concurrent(run *verifkit.Run) {
+	n := run.N(12, 200)
+	run.Cases("conc", n, func(i int, rng *verifkit.Rand) {
+		workers := rng.Range(4, 8)
+		iters := run.N(400, 1500)
+		now := time.Now().Unix()
+		var wg sync.WaitGroup
+		var bad int64
+		var first atomic.Value
+		// a process normally signs and verifies with ONE key (the cluster's):
+		// all workers share it; every fourth case uses two keys alternately
+		keys := [][]byte{rng.Bytes(rng.Range(1, 80))}
+		if i%4 == 3 {
+			keys = append(keys, rng.Bytes(rng.Range(1, 80)))
+		}
+		for w := 0; w < workers; w++ {
+			wrng := rng.Fork()
+			wg.Add(1)
+			go func() {
+				defer wg.Done()
+				for k := 0; k < iters; k++ {
+					key := keys[wrng.Intn(len(keys))]
+					key2 := append(append([]byte(nil), key...), 'x')
+					hash := wrng.Hex(32)
+					token := wrng.String(wrng.Range(1, 50), "abcdefghijklmnopqrstuvwxyz0123456789")
+					ttl := time.Duration(wrng.Range(1, 1209600)) * time.Second
+					exp := now + int64(wrng.Range(3600, 86400*30))
+					loc := fmt.Sprintf("%s+%d", hash, wrng.Range(0, 67108864))
+					signed := SignLocator(loc, token, time.Unix(exp, 0), ttl, key)
+					want := loc + "+" + verifkit.C07RefHint(key, hash, token, exp, ttl)
+					fail := ""
+					if signed != want {
+						fail = fmt.Sprintf("SignLocator under concurrency returned %q, reference %q", signed, want)
+					} else if err := VerifySignature(want, token, ttl, key); err != nil {
+						fail = fmt.Sprintf("VerifySignature under concurrency rejected a correct unexpired locator: %v", err)
+					} else if err := VerifySignature(want, token, ttl, key2); err == nil {
+						fail = "VerifySignature under concurrency accepted a locator with another key"
+					} else if err := VerifySignature(want, token+"y", ttl, key); err == nil {
+						fail = "VerifySignature under concurrency accepted a locator with another token"
+					}
+					if fail != "" {
+						if atomic.AddInt64(&bad, 1) == 1 {
+							first.Store(fail)
+						}
+					}
+				}
+			}()
+		}
+		wg.Wait()
+		run.Eval(workers * iters * 4)
+		run.Count("conc_sign_verify_rounds", workers*iters)
+		run.Feature(fmt.Sprintf("conc:workers=%d", workers))
+		if bad > 0 {
+			msg, _ := first.Load().(string)
+			run.Violation("C07:conc:sign-or-verify-differs-under-concurrency", fmt.Sprintf("%d of %d concurrent rounds wrong; first: %s", bad, workers*iters, msg), nil)
+		}
+	})
+}
